@@ -79,10 +79,11 @@ def selections(tier, seed=0):
             sel("leaves..tutorial_gui", ONE, "net1 net2 net4"),
             sel("normal..tutorial3", ONE, "net1 net2", twice=True),
             sel("leaves..tutorial_gui..client_noop", MULTI2, "cluster1.net6 net3"),
-            sel("leaves..tutorial_finale", ONE, "net1"),
+            sel("leaves..tutorial_finale", ONE, "net1 net2"),
             sel("normal..tutorial1", ONE, "net1 net2", lazy=1, twice=True),
             sel("normal..tutorial1", MULTI1, "net2 net5"),
             sel("normal..tutorial2", ONE, "net1", lazy=1, twice=True),
+            sel("leaves..tutorial_gui..client_noop,leaves..tutorial_get..implicit_both", ONE, "net1"),
         ]
     out = []
     sets = ["normal..tutorial1", "normal..tutorial2", "minimal", "normal..tutorial3", "leaves..tutorial3", "all..tutorial3",
@@ -103,22 +104,21 @@ def selections(tier, seed=0):
 # ---------------------------------------------------------------- naming helpers (oracle side)
 
 def split_name(node):
-    """(set-invariant test name incl. vm variants, worker part of the name) of a composite node."""
-    name = node.params["name"]
-    if ".nets." not in name:
-        return name, None
-    net = name.rsplit(".nets.", 1)[1]
-    # the net variant is repeated after every vm of the test: drop all repetitions
-    head = name.replace(".nets." + net, "")
+    """(set-invariant test name incl. vm variants, worker part of the name or None for a flat node)."""
+    name, net = node.params["name"], None
+    if ".nets." in name:
+        net = name.rsplit(".nets.", 1)[1]
+        # the net variant is repeated after every vm of the test: drop all repetitions
+        name = name.replace(".nets." + net, "")
     best = ""
     for restr in node.params.objects("main_restrictions"):
-        if head.startswith(restr + ".") and len(restr) > len(best):
+        if name.startswith(restr + ".") and len(restr) > len(best):
             best = restr
-    return (head[len(best) + 1:] if best else head), net
+    return (name[len(best) + 1:] if best else name), net
 
 
 def obj_ids(objs):
-    return sorted(o.id for o in objs)
+    return sorted(str(getattr(o, "id", o)) for o in objs)
 
 
 def snapshot_ids(graph):
@@ -144,7 +144,7 @@ def snapshot_keys(graph):
 
 class Report:
     def __init__(self):
-        self.failures, self.obligations, self.seen = [], {}, {}
+        self.failures, self.obligations, self.seen, self.eager_keys = [], {}, {}, {}
 
     def used(self, ob):
         self.obligations[ob] = self.obligations.get(ob, 0) + 1
@@ -208,6 +208,9 @@ def check_graph(graph, inp, rep, eager):
     rep.used("edges_symmetric")
     for a in nodes:
         for b, objs in a.setup_nodes.items():
+            if not a.is_flat() and not set(objs) <= set(a.objects) and (not b.is_flat() or b.is_shared_root()):
+                rep.fail("edges_symmetric", inp, {"child": nid(a), "parent": nid(b), "setup": obj_ids(objs)},
+                         "a dependency is recorded for objects of the child", "foreign_edge_object")
             back = b.cleanup_nodes.get(a)
             if b not in nset or not objs or back is None or set(back) != set(objs):
                 rep.fail("edges_symmetric", inp, {"child": nid(a), "parent": nid(b), "setup": obj_ids(objs), "cleanup": None if back is None else obj_ids(back),
@@ -423,6 +426,7 @@ def run_selection(s, seed, rep):
                 diff = [x for x in one if x not in two][:2] + [x for x in two if x not in one][:2]
                 rep.fail("parse_deterministic", dict(base, mode="eager2"), diff, "identical ids, edges, bridges and clones", "second_parse_differs")
     want = snapshot_keys(eager)
+    rep.eager_keys = want
     for k in range(s["lazy"]):
         order = seed * 1000 + k
         lazy = guarded(f"lazy{order}", lambda: parse_lazy(s, order))
@@ -434,6 +438,19 @@ def run_selection(s, seed, rep):
         graphs += 1
         check_graph(lazy, dict(base, mode=f"lazy{order}"), rep, False)
         got = snapshot_keys(lazy)
+        # every selected (flat) test is expanded for every compatible worker and linked to its expansions
+        for f in lazy.nodes:
+            if not f.is_flat() or f.is_shared_root():
+                continue
+            fkey = split_name(f)[0]
+            for w in lazy.workers.values():
+                net = w.params["name"].split("nets.", 1)[1]
+                kids = sorted(split_name(c)[0] for c in f.cleanup_nodes if not c.is_flat() and split_name(c)[1] == net)
+                expected = sorted(k for k, n in want if n == net and k.split(".vms.")[0] == fkey)
+                stray = [k for k in kids if not (k + ".").startswith(fkey + ".")]
+                if stray or bool(kids) != bool(expected) or not set(expected) <= set(kids):
+                    rep.fail("lazy_equals_eager", dict(base, mode=f"lazy{order}"), {"flat": f.id, "worker": net, "children": kids[:4]},
+                             {"eager tests of that name": expected[:4]}, "flat_test_not_expanded_or_linked")
         if got != want:
             rep.fail("lazy_equals_eager", dict(base, mode=f"lazy{order}"),
                      {"missing": sorted(map(list, set(want) - set(got)))[:3], "extra": sorted(map(list, set(got) - set(want)))[:3],
@@ -442,20 +459,82 @@ def run_selection(s, seed, rep):
     return stats, graphs
 
 
+def descend_case(seq):
+    """Run one sequence of descend_from_node calls (child, parent, object indices) and compare with a dictionary model."""
+    from avocado_i2n.cartgraph import TestNode
+    nodes, objs, model = [TestNode(str(i), None) for i in range(3)], ["o1", "o2"], {}
+    for c, p, o in seq:
+        nodes[c].descend_from_node(nodes[p], objs[o])
+        model.setdefault((c, p), set()).add(objs[o])
+    got_setup = {(c, nodes.index(p)): set(s) for c in range(3) for p, s in nodes[c].setup_nodes.items()}
+    got_cleanup = {(nodes.index(c), p): set(s) for p in range(3) for c, s in nodes[p].cleanup_nodes.items()}
+    show = lambda d: sorted([list(k), sorted(v)] for k, v in d.items())  # noqa: E731
+    return got_setup == model and got_cleanup == model, {"setup": show(got_setup), "cleanup": show(got_cleanup)}, show(model)
+
+
+def check_descend_scope(rep):
+    """Exhaustive small scope for TestNode.descend_from_node alone: all sequences of <= 3 calls over 3 nodes x 2 objects
+    (the sample suite has no test depending on one parent through two objects)."""
+    calls = [(c, p, o) for c in range(3) for p in range(3) if c != p for o in range(2)]
+    count = 0
+    for seq in itertools.chain.from_iterable(itertools.product(calls, repeat=k) for k in (1, 2, 3)):
+        count += 1
+        ok, observed, model = descend_case(seq)
+        if not ok:
+            rep.fail("edges_symmetric", {"descend_calls": [list(x) for x in seq]}, observed, model, "descend_model")
+    rep.obligations["edges_symmetric"] = rep.obligations.get("edges_symmetric", 0) + count
+    return count
+
+
 def pool_job(args):
     """Run one selection in a worker process; everything returned is plain data (deterministic per selection)."""
     s, seed = args
     rep, t1 = Report(), time.time()
-    stats, graphs = run_selection(s, seed, rep)
-    return {"stats": stats, "graphs": graphs, "failures": rep.failures, "obligations": rep.obligations, "time": time.time() - t1}
+    try:
+        stats, graphs = run_selection(s, seed, rep)
+    except Exception as error:  # noqa: BLE001 - a graph so broken that an oracle itself trips over it
+        stats, graphs = None, 0
+        rep.fail("no_unexpected_exception", {"restr": s["restr"], "vms": s["vms"], "nets": s["nets"], "lazy": s["lazy"], "twice": s["twice"],
+                                             "seed": seed, "mode": "check"}, f"{type(error).__name__}: {error}"[:400], "checkable graph", "check_crashed")
+    return {"stats": stats, "graphs": graphs, "failures": rep.failures, "obligations": rep.obligations, "time": time.time() - t1,
+            "keys": [[list(k), v] for k, v in rep.eager_keys.items()]}
+
+
+def compare_selections(known, s, keys, seed, rep):
+    """A test has the same parents whatever else is selected with it (same vm restrictions, same worker)."""
+    mine = {tuple(k): v for k, v in keys}
+    for other, theirs in known.get(json.dumps(s["vms"], sort_keys=True), []):
+        diff = sorted(k for k in mine if k in theirs and mine[k] != theirs[k])
+        # ... and selecting more tests never removes a test (or a clone of it) from a worker's copy
+        for small, large, a, b in ((theirs, mine, other, s), (mine, theirs, s, other)):
+            if set(a["restr"].split(",")) <= set(b["restr"].split(",")):
+                diff += sorted(k for k in small if k not in large and k[1] in {n for _, n in large})
+        if diff or (set(mine) & set(theirs)):
+            rep.used("unique_producer")
+        if diff:
+            rep.fail("unique_producer", {"restr": s["restr"], "vms": s["vms"], "nets": s["nets"], "lazy": 0, "twice": False, "seed": seed, "mode": "eager",
+                                         "other": {"restr": other["restr"], "nets": other["nets"]}},
+                     [[list(k), mine.get(k), theirs.get(k)] for k in diff[:2]], "same tests with the same parents in both selections",
+                     "parents_depend_on_selection")
+    known.setdefault(json.dumps(s["vms"], sort_keys=True), []).append((s, mine))
+
 
 
 def main():
     if "--replay" in sys.argv:
         inp = json.loads(sys.argv[sys.argv.index("--replay") + 1])
         rep = Report()
+        if "descend_calls" in inp:
+            ok, observed, model = descend_case(inp["descend_calls"])
+            print(json.dumps({"ok": ok, "observed": observed, "expected": model}))
+            return 0 if ok else 1
         s = sel(inp["restr"], inp["vms"], inp["nets"], inp.get("lazy", 0), inp.get("twice", False))
         stats, _ = run_selection(s, int(inp.get("seed", 0)), rep)
+        if inp.get("other"):
+            known, keys = {}, [[list(k), v] for k, v in rep.eager_keys.items()]
+            other = pool_job((sel(inp["other"]["restr"], inp["vms"], inp["other"]["nets"]), 0))
+            compare_selections(known, sel(inp["other"]["restr"], inp["vms"], inp["other"]["nets"]), other["keys"], 0, Report())
+            compare_selections(known, s, keys, int(inp.get("seed", 0)), rep)
         print(json.dumps({"ok": not rep.failures, "stats": stats, "failures": rep.failures[:10]}, indent=1))
         return 1 if rep.failures else 0
     tier = os.environ.get("VERIF_TIER", "quick")
@@ -463,9 +542,10 @@ def main():
     budget = int(os.environ.get("VERIF_BUDGET", 110 if tier == "quick" else 1080))
     jobs = max(1, min(int(os.environ.get("VERIF_JOBS", "4" if tier == "quick" else "6")), os.cpu_count() or 1))
     todo = selections(tier, seed)
-    rep, t0, done, graphs, nontrivial, samples, total_nodes = Report(), time.time(), 0, 0, set(), [], 0
+    rep, t0, done, graphs, nontrivial, samples, total_nodes, known = Report(), time.time(), 0, 0, set(), [], 0, {}
     import multiprocessing
     pool = multiprocessing.get_context("fork").Pool(jobs)
+    micro = check_descend_scope(rep)
     try:
         # results are consumed in the fixed order of the selections, so the outcome does not depend on scheduling
         # and a selection is only dropped if it has not finished when the time budget is over
@@ -483,6 +563,7 @@ def main():
                 rep.obligations[ob] = rep.obligations.get(ob, 0) + count
             for f in out["failures"]:
                 rep.fail(f["obligation"], f["input"], f["observed"], f["expected"], f["class"])
+            compare_selections(known, s, out["keys"], seed, rep)
             if stats:
                 total_nodes += stats["nodes"]
                 if stats["composite"] > 3 * stats["workers"]:
@@ -495,10 +576,11 @@ def main():
         pool.terminate()
         pool.join()
     res = {
-        "name": "graph_wf", "obligations": rep.obligations, "cases": graphs, "distinct_nontrivial": len(nontrivial),
+        "name": "graph_wf", "obligations": rep.obligations, "cases": graphs + micro, "distinct_nontrivial": len(nontrivial),
         "rule": "case = one parsed graph (eager, repeated eager or lazy) of a selection (restriction x vm restrictions x nets) of the sample suite; "
                 "non-trivial selection = parses to more than 3 composite tests per worker (i.e. has real setup chains below the leaves)",
-        "bound": f"tier={tier}: {done}/{len(todo)} selections, {graphs} graphs, {total_nodes} nodes in eager graphs; lazy orders seeded by {seed}",
+        "bound": f"tier={tier}: {done}/{len(todo)} selections, {graphs} graphs, {total_nodes} nodes in eager graphs; lazy orders seeded by {seed}; "
+                 f"plus {micro} descend_from_node call sequences (<=3 calls, 3 nodes, 2 objects)",
         "exhaustive": done == len(todo), "samples": samples, "failures": rep.failures[:10],
     }
     print("BOUNDED-RESULT " + json.dumps(res))
